@@ -276,7 +276,9 @@ func NodeBags(n *Node, _ NoArgs) []Bag {
 
 // ---- Bag fields ----
 
-func BagTotal(b *Bag, _ NoArgs) int64 { return b.A*3 + int64(len(b.Tags)) + int64(b.W.H("Bag", b.A, "total", 0)%5) }
+func BagTotal(b *Bag, _ NoArgs) int64 {
+	return b.A*3 + int64(len(b.Tags)) + int64(b.W.H("Bag", b.A, "total", 0)%5)
+}
 func BagNode(b *Bag, _ NoArgs) *Node {
 	h := b.W.H("Bag", b.A, "node", int64(len(b.Tags)))
 	if h%3 == 0 {
@@ -318,7 +320,9 @@ func LeafColor(l *Leaf, _ NoArgs) Color { return Color(1 + l.W.H("Leaf", l.Id, "
 
 // ---- Item fields ----
 
-func ItemB(it *Item, _ NoArgs) string { return fmt.Sprintf("i%d.%d", it.A, it.W.H("Item", it.A, "b", 0)%83) }
+func ItemB(it *Item, _ NoArgs) string {
+	return fmt.Sprintf("i%d.%d", it.A, it.W.H("Item", it.A, "b", 0)%83)
+}
 func ItemNode(it *Item, _ NoArgs) *Node {
 	h := it.W.H("Item", it.A, "node", 0)
 	if h%3 == 0 {
@@ -363,9 +367,9 @@ func RootThings(w *World, _ NoArgs) []*Thing {
 	}
 	return out
 }
-func RootItem(w *World, a AArgs) Item     { return Item{A: a.A, W: w} }
-func RootColor(w *World, _ NoArgs) Color  { return Color(1 + w.H("Query", 0, "color", 0)%3) }
-func RootCount(w *World, _ NoArgs) int64  { return int64(w.N) }
+func RootItem(w *World, a AArgs) Item    { return Item{A: a.A, W: w} }
+func RootColor(w *World, _ NoArgs) Color { return Color(1 + w.H("Query", 0, "color", 0)%3) }
+func RootCount(w *World, _ NoArgs) int64 { return int64(w.N) }
 func RootLeaves(w *World, _ NoArgs) []*Leaf {
 	k := w.M
 	if k > 7 {
